@@ -1380,7 +1380,12 @@ int safec_vsnprintf_s(out_fct_type out, const char *funcname, char *buffer,
             char wstr[5];
             if (flags & FLAGS_LONG) {
 #ifndef SAFECLIB_DISABLE_WCHAR
-                int len = wctomb(wstr, va_arg(va, int));
+                /* as if by wcrtomb with a state of its own (C11 7.21.6.1p8),
+                   not wctomb's state shared by all threads */
+                mbstate_t st;
+                int len;
+                memset(&st, 0, sizeof(st));
+                len = (int)wcrtomb(wstr, (wchar_t)va_arg(va, int), &st);
                 if (len <= 0 || len > 4) {
                     char msg[80];
                     snprintf(msg, sizeof msg, "%s: wctomb for %%lc arg failed",
